@@ -10,8 +10,10 @@
      checkMacroBoundaryNode (push boundary frame, check body, pop)       -> SBoundary
      checkExpressionUnhygienicNode (set the flag, check, restore)        -> EUnhyg / SUnhyg
      checkShortVariableDeclaration (`x := e`: assignment when x is in the CURRENT frame, else a new
-       local of the current frame; the initialiser is checked before the local is added)  -> SLet
-     checkLocalVariableAssignment (`x = e`: resolveLocal)                -> SAssign
+       local of the current frame; the initialiser is checked before the local is added)  -> EBind
+     checkLocalVariableAssignment (`x = e`: resolveLocal)                -> ESet
+     (both are EXPRESSIONS and may stand in operands, call arguments and conditions; as statements
+      they are SLet / SAssign = SExpr (EBind ..) / SExpr (ESet ..))
      checkIfExpressionNode (default frame for the condition, one conditional frame per branch) -> SIf
    The bytecode compiler keeps one scope per frame and resolves names the same way
    (compiler/bytecode_compiler.go resolveLocal / defineLocal), so the same frames give the run-time
@@ -85,29 +87,58 @@ Inductive expr :=
 | ELit (z : Z)
 | EVar (x : name)
 | EAdd (a b : expr)
-| EUnhyg (e : expr).
+| EUnhyg (e : expr)
+| EBind (x : name) (e : expr)        (* (x := e): declares/assigns x in the CURRENT frame, value = e *)
+| ESet (x : name) (e : expr).        (* (x = e): assigns the resolved local, value = e *)
 
 Inductive stmt :=
 | SSkip
 | SSeq (a b : stmt)
-| SLet (x : name) (e : expr)         (* x := e *)
-| SAssign (x : name) (e : expr)      (* x = e  *)
-| SPrint (e : expr)
+| SExpr (e : expr)                   (* expression statement, value dropped *)
+| SPrint (e : expr)                  (* println(e): e is a call argument *)
 | SBlock (s : stmt)                  (* do ... end *)
 | SIf (c : expr) (t e : stmt)        (* if c > 0 ... else ... end *)
 | SBoundary (s : stmt)               (* the expansion of a macro call *)
 | SUnhyg (s : stmt).                 (* Macro.unhygienic(quote s) spliced as a statement *)
 
-Fixpoint eval (r : env) (u : bool) (e : expr) : option Z :=
+(* the two statement forms of the first version of this model are expression statements *)
+Definition SLet (x : name) (e : expr) : stmt := SExpr (EBind x e).      (* x := e *)
+Definition SAssign (x : name) (e : expr) : stmt := SExpr (ESet x e).    (* x = e  *)
+
+(* Expressions bind: `(x := e) + x`, `println((x := e) + x)`, `if (x := e) > 0`.  Operands are
+   evaluated left to right and every binder acts on the frame that is current where the expression
+   stands (checkShortVariableDeclaration / defineLocal do not depend on the nesting depth inside an
+   expression), so evaluation threads the environment. *)
+Definition eres := option (env * Z).
+
+Fixpoint eval (r : env) (u : bool) (e : expr) : eres :=
   match e with
-  | ELit z => Some z
-  | EVar x => match resolve r x u with Some (_, v) => Some v | None => None end
+  | ELit z => Some (r, z)
+  | EVar x => match resolve r x u with Some (_, v) => Some (r, v) | None => None end
   | EAdd a b =>
-    match eval r u a, eval r u b with
-    | Some x, Some y => Some (x + y)
-    | _, _ => None
+    match eval r u a with
+    | Some (r1, x) =>
+      match eval r1 u b with
+      | Some (r2, y) => Some (r2, x + y)
+      | None => None
+      end
+    | None => None
     end
   | EUnhyg e' => eval r true e'
+  | EBind x e' =>
+    match eval r u e' with
+    | Some (f :: r', v) => Some (add f x v :: r', v)
+    | _ => None
+    end
+  | ESet x e' =>
+    match eval r u e' with
+    | Some (r1, v) =>
+      match resolve r1 x u with
+      | Some (d, _) => Some (update r1 d x v, v)
+      | None => None
+      end
+    | None => None
+    end
   end.
 
 Inductive mode := Static | Dynamic.
@@ -130,27 +161,22 @@ Fixpoint run (m : mode) (r : env) (u : bool) (s : stmt) : result :=
   match s with
   | SSkip => Some (r, [])
   | SSeq a b => bind (run m r u a) (fun r' => run m r' u b)
-  | SLet x e =>
-    match eval r u e, r with
-    | Some v, f :: r' => Some (add f x v :: r', [])
-    | _, _ => None
-    end
-  | SAssign x e =>
-    match eval r u e, resolve r x u with
-    | Some v, Some (d, _) => Some (update r d x v, [])
-    | _, _ => None
+  | SExpr e =>
+    match eval r u e with
+    | Some (r', _) => Some (r', [])
+    | None => None
     end
   | SPrint e =>
     match eval r u e with
-    | Some v => Some (r, [v])
+    | Some (r', v) => Some (r', [v])
     | None => None
     end
   | SBlock b => scoped FDefault r (fun r' => run m r' u b)
   | SIf c t e =>
-    scoped FDefault r (fun r1 =>
-      match eval r1 u c with
+    scoped FDefault r (fun r0 =>
+      match eval r0 u c with
       | None => None
-      | Some v =>
+      | Some (r1, v) =>
         match m with
         | Dynamic =>
           if Z.ltb 0 v then scoped FCond r1 (fun r2 => run m r2 u t)
@@ -186,12 +212,18 @@ Definition declare (sc : scope) (x : name) : scope :=
 Definition ren_name (sg : name -> name) (sc : scope) (u : bool) (x : name) : name :=
   if u then (if bound sc x then sg x else x) else sg x.
 
-Fixpoint rename_expr (sg : name -> name) (sc : scope) (u : bool) (e : expr) : expr :=
+(* sc is threaded through expressions: a binder inside an operand declares for what follows *)
+Fixpoint rename_expr (sg : name -> name) (sc : scope) (u : bool) (e : expr) : expr * scope :=
   match e with
-  | ELit z => ELit z
-  | EVar x => EVar (ren_name sg sc u x)
-  | EAdd a b => EAdd (rename_expr sg sc u a) (rename_expr sg sc u b)
-  | EUnhyg e' => EUnhyg (rename_expr sg sc true e')
+  | ELit z => (ELit z, sc)
+  | EVar x => (EVar (ren_name sg sc u x), sc)
+  | EAdd a b =>
+    let (a', sc1) := rename_expr sg sc u a in
+    let (b', sc2) := rename_expr sg sc1 u b in
+    (EAdd a' b', sc2)
+  | EUnhyg e' => let (e'', sc') := rename_expr sg sc true e' in (EUnhyg e'', sc')
+  | EBind x e' => let (e'', sc') := rename_expr sg sc u e' in (EBind (sg x) e'', declare sc' x)
+  | ESet x e' => let (e'', sc') := rename_expr sg sc u e' in (ESet (ren_name sg sc' u x) e'', sc')
   end.
 
 Fixpoint rename (sg : name -> name) (sc : scope) (u : bool) (s : stmt) : stmt * scope :=
@@ -201,14 +233,12 @@ Fixpoint rename (sg : name -> name) (sc : scope) (u : bool) (s : stmt) : stmt * 
     let (a', sc1) := rename sg sc u a in
     let (b', sc2) := rename sg sc1 u b in
     (SSeq a' b', sc2)
-  | SLet x e => (SLet (sg x) (rename_expr sg sc u e), declare sc x)
-  | SAssign x e => (SAssign (ren_name sg sc u x) (rename_expr sg sc u e), sc)
-  | SPrint e => (SPrint (rename_expr sg sc u e), sc)
+  | SExpr e => let (e', sc') := rename_expr sg sc u e in (SExpr e', sc')
+  | SPrint e => let (e', sc') := rename_expr sg sc u e in (SPrint e', sc')
   | SBlock b => (SBlock (fst (rename sg ([] :: sc) u b)), sc)
   | SIf c t e =>
-    (SIf (rename_expr sg ([] :: sc) u c)
-         (fst (rename sg ([] :: [] :: sc) u t))
-         (fst (rename sg ([] :: [] :: sc) u e)), sc)
+    let (c', sc1) := rename_expr sg ([] :: sc) u c in
+    (SIf c' (fst (rename sg ([] :: sc1) u t)) (fst (rename sg ([] :: sc1) u e)), sc)
   | SBoundary b => (SBoundary (fst (rename sg ([] :: sc) u b)), sc)
   | SUnhyg b => let (b', sc') := rename sg sc true b in (SUnhyg b', sc')
   end.
@@ -222,7 +252,7 @@ Definition expand_by_hand (sg : name -> name) (u : bool) (b : stmt) : stmt :=
    sg x = x + n1, after which every name is < n1 + n1 *)
 Fixpoint expand_all (n : N) (u : bool) (s : stmt) : stmt * N :=
   match s with
-  | SSkip | SLet _ _ | SAssign _ _ | SPrint _ => (s, n)
+  | SSkip | SExpr _ | SPrint _ => (s, n)
   | SSeq a b =>
     let (a', n1) := expand_all n u a in
     let (b', n2) := expand_all n1 u b in
@@ -245,14 +275,14 @@ Fixpoint expr_below (K : N) (e : expr) : bool :=
   | EVar x => N.ltb x K
   | EAdd a b => expr_below K a && expr_below K b
   | EUnhyg e' => expr_below K e'
+  | EBind x e' | ESet x e' => N.ltb x K && expr_below K e'
   end.
 
 Fixpoint stmt_below (K : N) (s : stmt) : bool :=
   match s with
   | SSkip => true
   | SSeq a b => stmt_below K a && stmt_below K b
-  | SLet x e | SAssign x e => N.ltb x K && expr_below K e
-  | SPrint e => expr_below K e
+  | SExpr e | SPrint e => expr_below K e
   | SBlock b | SBoundary b | SUnhyg b => stmt_below K b
   | SIf c t e => expr_below K c && stmt_below K t && stmt_below K e
   end.
@@ -264,6 +294,7 @@ Fixpoint expr_hyg (e : expr) : bool :=
   match e with
   | ELit _ | EVar _ => true
   | EAdd a b => expr_hyg a && expr_hyg b
+  | EBind _ e' | ESet _ e' => expr_hyg e'
   | EUnhyg _ => false
   end.
 
@@ -272,7 +303,7 @@ Fixpoint stmt_hyg (s : stmt) : bool :=
   match s with
   | SSkip => true
   | SSeq a b => stmt_hyg a && stmt_hyg b
-  | SLet _ e | SAssign _ e | SPrint e => expr_hyg e
+  | SExpr e | SPrint e => expr_hyg e
   | SBlock b | SBoundary b => stmt_hyg b
   | SIf c t e => expr_hyg c && stmt_hyg t && stmt_hyg e
   | SUnhyg _ => false
